@@ -113,6 +113,7 @@ type Vaxis struct {
 	graphicsProtocol int
 	graphicsIDNext   uint64
 	reqCursorPos     int32
+	suspended        int32
 	charCache        map[string]int
 	cursorNext       cursorState
 	cursorLast       cursorState
@@ -1395,6 +1396,11 @@ func (vx *Vaxis) Suspend() error {
 	// 2. Send a DA1 query so there is data on the reader, breaking the read
 	//    loop
 	// 3. Confirm we have closed
+	if !atomic.CompareAndSwapInt32(&vx.suspended, 0, 1) {
+		// Already suspended: the parser is gone and the terminal is the
+		// user's again, there is nothing to undo (Close after Suspend)
+		return nil
+	}
 	vx.parser.Close()
 	io.WriteString(vx.console, primaryAttributes)
 	vx.parser.WaitClose()
@@ -1500,6 +1506,7 @@ func (vx *Vaxis) Resume() error {
 	if err != nil {
 		return err
 	}
+	atomicStore(&vx.suspended, false)
 
 	vx.enterAltScreen()
 	vx.enableModes()
